@@ -118,6 +118,11 @@ class FuncView:
             raise AnalysisError(f"expected exactly one call of {name} in {self.func.short}, found {len(cs)}")
         return cs[0]
 
+    def maybe_call(self, name, last=True) -> Optional[ast.Call]:
+        """The single call of ``name`` or None (absent or ambiguous)."""
+        cs = self.calls(name, last)
+        return cs[0] if len(cs) == 1 else None
+
     def some_calls(self, name, minimum=1, last=True) -> List[ast.Call]:
         cs = self.calls(name, last)
         if len(cs) < minimum:
@@ -175,6 +180,16 @@ def positive_form(test, outcome: str) -> Tuple[str, str]:
         pos = ast.Compare(left=test.left, ops=[_FLIP[type(test.ops[0])]()], comparators=test.comparators)
         return unparse(pos), ("F" if outcome == "T" else "T")
     return unparse(test), outcome
+
+
+def ifexp_parts(e) -> Optional[Tuple[str, str, str]]:
+    """``A if c else B`` -> (c, A, B) with a negated test normalised away."""
+    if not isinstance(e, ast.IfExp):
+        return None
+    t, a, b = e.test, e.body, e.orelse
+    if isinstance(t, ast.UnaryOp) and isinstance(t.op, ast.Not):
+        t, a, b = t.operand, b, a
+    return unparse(t), unparse(a), unparse(b)
 
 
 def callee_last(call: ast.Call) -> Optional[str]:
